@@ -123,6 +123,20 @@ def check_identity_dedup(ctx: CheckContext, p: Program, r: Resolver, funcs: List
         for nd in nodes:
             if isinstance(nd, ast.Call) and isinstance(nd.func, ast.Attribute) and nd.func.attr == "add" and isinstance(nd.func.value, ast.Name) and len(nd.args) == 1:
                 added.setdefault(nd.func.value.id, []).append(nd.args[0])
+        appended: Set[str] = set()
+        for nd in nodes:
+            if isinstance(nd, ast.Call) and isinstance(nd.func, ast.Attribute) and nd.func.attr == "append" and isinstance(nd.func.value, ast.Name) and len(nd.args) == 1 \
+                    and t.is_rec(nd.args[0]):
+                appended.add(nd.func.value.id)
+        for nd in nodes:
+            # `record not in kept_records`: membership in a list of records compares the schema objects field by field (pydantic models are equal when
+            # all their fields are), so a second record with the same values is taken for the first one
+            if isinstance(nd, ast.Compare) and len(nd.ops) == 1 and isinstance(nd.ops[0], (ast.In, ast.NotIn)) and t.is_rec(nd.left) \
+                    and isinstance(nd.comparators[0], ast.Name) and nd.comparators[0].id in appended:
+                n += 1
+                ctx.ob(rule, f"{f.qualname}:membership of a record in `{nd.comparators[0].id}`:{ast.unparse(nd)[:60]}", f"{f.module.relpath}:{nd.lineno}", False,
+                       f"`{ast.unparse(nd)}` de-duplicates input stream records by VALUE (list membership uses ==, and schema objects compare field by field): "
+                       f"two distinct streams with identical fields - equal parallel branches - are merged and one never reaches any zone")
         for nd in nodes:
             cands = []          # (kind, key expr, node)
             if isinstance(nd, ast.Compare) and len(nd.ops) == 1 and isinstance(nd.ops[0], (ast.In, ast.NotIn)) and isinstance(nd.comparators[0], ast.Name) \
